@@ -6,9 +6,10 @@
       "inside the k-th body the view is the reference of Spec/C19Spec.v
        (journal of earlier edits over the levels with collection := the path
        of THIS task, env := the environment now) and nothing escapes execute"
-    is FALSE of the faithful model in two ways (two refutations below); the
-    general guarded statement (directly requested tasks, no environment
-    variable naming a setting only an earlier task's collection defines) is
+    is FALSE of the faithful model for pre/post tasks and the implicitly
+    chosen default task (F-C19, two refutations below; a second way, the stale
+    environment level F-C19b, was repaired in /repo by 150639c); the
+    general guarded statement (directly requested tasks) is
     sampled by a bounded sweep and NOT proved in general -- its ingredients
     that are proved: C17_path_deep_merge (collection level of a named call),
     the C06 partial theorems (journal over reloaded levels), C16 (environment),
@@ -51,8 +52,7 @@ Proof. exact load_shell_env_effect. Qed.
     there, and the session's modifications and deletions are kept.
     Guard = the call carries its name (pre/post/default-task calls do not:
     F-C19) -- and this is the collection LEVEL, not yet the view: the
-    environment level loaded next may still carry a previous task's setting
-    (F-C19b). *)
+    environment level is loaded next (C19_env_reload_forgets_old_env). *)
 Theorem C19_named_call_gets_own_path_settings_partial : forall ns fs c0 n t cfgs,
   ns_wf ns = true -> ns_canon ns = true ->
   ref_path ns (segs_of n) = Some (t, cfgs) -> all_compatible cfgs = true ->
@@ -83,30 +83,40 @@ Theorem C19_task_view_refuted_default_task :
             (session c (mkInit (Node []) (Node []) None None false) [] [("a", leaf_call 1)] None true [[]]) = true.
 Proof. exact refuted_default_task. Qed.
 
-(** F-C19b: with INVOKE_K_A set, `sub.first second` lets [second] see
-    [k.a = 5] although only [sub] configures [k.a]: the environment level
-    computed for [first] survives the reload and re-creates the setting. *)
-Theorem C19_task_view_refuted_stale_env :
+(** Freshly read environment overrides: the reload of the environment level
+    does not depend on the level computed for the previous task at all. *)
+Theorem C19_env_reload_forgets_old_env : forall fs c e old,
+  step fs (set_env c old) (LoadShellEnv e) = step fs c (LoadShellEnv e).
+Proof. exact env_reload_forgets_old_env. Qed.
+
+(** The former witness of F-C19b (found by this check, repaired in /repo by
+    150639c; until then [C19_task_view_refuted_stale_env] stood here): with
+    INVOKE_K_A set, `sub.first second`, only [sub] configuring [k.a] -- the
+    environment level computed for [first] used to re-create [k.a = 5] for
+    [second].  Now the session meets the specification and [second] sees
+    nothing of it.  The same case is in corpus/C19 and is replayed on the
+    real code on every run. *)
+Example C19_stale_env_repaired :
   exists c, build ns_script_e = Ok c /\
     let i := mkInit (Node []) (Node []) None None false in
     let reqs := [("sub.first", leaf_call 1); ("second", leaf_call 2)] in
     C19Spec.spec_ok c (Node []) (Node []) (fun _ => []) [[("INVOKE_K_A", "5")]]
-            (session c i [] reqs None true [[("INVOKE_K_A", "5")]]) = false /\
+            (session c i [] reqs None true [[("INVOKE_K_A", "5")]]) = true /\
     (exists v1 v2, session c i [] reqs None true [[("INVOKE_K_A", "5")]]
                    = Ok ([(1, v1, [], v1); (2, v2, [], v2)], None) /\
-                   leaf_at ["k"; "a"] (Node v2) = Some (VInt 5)) /\
-    C19Spec.spec_ok c (Node []) (Node []) (fun _ => []) [[]] (session c i [] reqs None true [[]]) = true.
-Proof. exact refuted_stale_env. Qed.
+                   leaf_at ["k"; "a"] (Node v1) = Some (VInt 5) /\
+                   leaf_at ["k"; "a"] (Node v2) = None).
+Proof. exact stale_env_gone. Qed.
 
-(** Inside the guard (direct requests; environment variables naming settings
-    every collection defines) the views on entry and exit of every body are
+(** Inside the guard (direct requests) the views on entry and exit of every body are
     the reference, and nothing escapes, on each of 28 request sequences (1-3
     requests over names, a default shortcut and three collections) x 7 first-body edit scripts (writes, deletions of a setting
-    and of a whole section, pop, write-delete-write, attribute syntax) x 4
-    environment schedules = 784 sessions.  A TEST, not the property. *)
-Theorem C19_task_view_bounded_784 :
+    and of a whole section, pop, write-delete-write, attribute syntax) x 5
+    environment schedules (one of them naming a setting
+    only one collection defines) = 980 sessions.  A TEST, not the property. *)
+Theorem C19_task_view_bounded_980 :
   sweep = true /\
-  List.length req_seqs = 28 /\ List.length edits = 7 /\ List.length env_schedules = 4.
+  List.length req_seqs = 28 /\ List.length edits = 7 /\ List.length env_schedules = 5.
 Proof. split; [exact view_bounded | exact sweep_size]. Qed.
 
 (** Non-vacuity: in the sweep's tree the three tasks live in three collections
